@@ -2,6 +2,7 @@ import ObiVerif.Model.Tax
 import ObiVerif.Model.TaxLoad
 import ObiVerif.Model.TaxSeq
 import ObiVerif.Model.TaxRender
+import ObiVerif.Model.TaxIter
 import ObiVerif.Driver.Util
 /-!
 line protocol for C14
@@ -20,6 +21,13 @@ second pass (sequence level entry points of sequence_predicate.go / sequence_met
 `vf:s` (IsAValidTaxon(true): answer `:` taxid attribute afterwards) `sp:c:s` (Taxonomy.IsSubCladeOf(c) closure) `hq:r:s`
 (Taxonomy.HasRequiredRank(r) closure) `sw:k:s` (k = `sp` `ge` `fa`: MakeSetSpecies/Genus/FamilyWorker, `r<hex>`:
 MakeSetTaxonAtRankWorker; answer `none`, `-1/<hex NA>` or `taxid/<hex name>`) `sn:s` (SetScientificName) `tr:s` (SetTaxonomicRank)
+
+third pass (iterator protocol, `Model/TaxIter.lean`): `itx` (Taxonomy.Iterator() drained: count `/` sum of the taxids mod 1000003)
+`isl:<ids>:<f>` (a TaxonSlice of the taxa `ids` — duplicates and merged ids allowed — filtered by `f` = `all` | `sub:c` |
+`rank:r` | `bel:c,c` | `find:r:c,c` (obifind pipeline: rank filter then IFilterBelongingSubclades); answer: the TaxonSlice()
+in order `/` the keys of TaxonSet() sorted) `isp:<ids>:<sched>` (slice.Iterator() and its Split(), `sched` a word over
+a b: who calls Next; answer `a=…;b=…;r=…;f=…;ca=…;cb=…`: what each received, what is left, the finished flag, the
+`current` of each) `ispp:<ids>` (the two handles drained in parallel: the sorted union) `ifind:r:c,c` (obifind ITaxonRestrictions on Taxonomy.Iterator(), drained, sorted)
 
 `dump N<hex nodes.dmp> M<hex names.dmp> G<hex merged.dmp> [n… a…] q…` : the three files are loaded by the model of
 `ncbitaxdump.LoadNCBITaxDump` (`Model/TaxLoad.lean`); the `n`/`a` words (the tree the generator declared, used by the
@@ -270,10 +278,80 @@ def build (nodes : List (Nat × Node)) (aliases : List (Nat × Nat)) : Taxo :=
   let arr : Array (Option Node) := nodes.foldl (fun a p => a.set! p.1 (some p.2)) (Array.replicate (mx + 1) none)
   addAliases { ids := nodes.map (·.1), node := fun k => (arr[k]?).join, alias := fun _ => none } aliases
 
+/-- the third-pass iterator queries -/
+def showCur : Option Nat → String
+  | some x => toString x
+  | none => "nil"
+
+def applyFilter (c : Ctx) (src : List Nat) : List String → Option (Option (Res (List Nat)))
+  | ["all"] => some (some (.ok src))
+  | ["sub", x] => do
+    let x ← x.toNat?
+    match resolve c.t x with
+    | some x => pure (some (TaxLoad.filterSubclade c.t c.fuel x src))
+    | none => pure none
+  | ["rank", r] => do
+    let r ← rankOf r
+    pure (some (.ok (TaxLoad.filterRank c.t r src)))
+  | ["bel", cs] => do
+    let cs ← natList cs
+    match resolveList c.t cs with
+    | some rs => pure (some (TaxLoad.filterBelonging c.t c.fuel (sortDedup rs) src))
+    | none => pure none
+  | ["find", r, cs] => do
+    let r ← rankOf r
+    let cs ← natList cs
+    match resolveList c.t cs with
+    | some rs => pure (some (TaxIter.findRestrict c.t c.fuel r (sortDedup rs) src))
+    | none => pure none
+  | _ => none
+
+def queryIter (c : Ctx) (q : String) : Option String :=
+  match (q.drop 1).toString.splitOn ":" with
+  | ["itx"] =>
+    match TaxIter.taxonSlice (TaxIter.Chan.ofList c.sorted) with
+    | some (l, none, ⟨[], true⟩) => some s!"{l.length}/{l.foldl (fun acc x => (acc + x % 1000003) % 1000003) 0}"
+    | _ => some "hang"
+  | "isl" :: ids :: f => do
+    let ids ← natList ids
+    match resolveList c.t ids with
+    | none => pure "unk"
+    | some src =>
+      match ← applyFilter c src f with
+      | none => pure "unk"
+      | some (.error e) => pure (showBad e)
+      | some (.ok l) =>
+        -- the filter goroutine feeds a channel; `TaxonSlice()` / `TaxonSet()` drain it
+        match TaxIter.taxonSlice (TaxIter.Chan.ofList l) with
+        | some (got, none, ⟨[], true⟩) => pure s!"{showIds got}/{showIds (sortDedup (TaxIter.dedup got))}"
+        | _ => pure "hang"
+  | ["isp", ids, sched] => do
+    let ids ← natList ids
+    if !(sched.toList.all fun ch => ch = 'a' || ch = 'b') then none else
+    match resolveList c.t ids with
+    | none => pure "unk"
+    | some src =>
+      let s := TaxIter.runSched (TaxIter.Two.start src) (sched.toList.map (· = 'b'))
+      pure s!"a={showIds s.gotA.reverse};b={showIds s.gotB.reverse};r={showIds s.c.rest};f={if s.c.fin then 1 else 0};ca={showCur s.curA};cb={showCur s.curB}"
+  | ["ispp", ids] => do
+    -- two goroutines drain the iterator and its split: whatever the interleaving the shares are a partition of the
+    -- source (`split_every_taxon_once`); printed: the sorted union
+    let ids ← natList ids
+    match resolveList c.t ids with
+    | none => pure "unk"
+    | some src => pure (showIds (src.mergeSort (fun a b => a ≤ b)))
+  | ["ifind", r, cs] => do
+    match ← applyFilter c c.sorted ["find", r, cs] with
+    | none => pure "unk"
+    | some r => pure (showRes showIds r)
+  | _ => none
+
 def queryAll (c : Ctx) (q : String) : Option String :=
   match queryX c q with
   | some r => some r
-  | none => match queryWlo c.t c.fuel q with
+  | none => match queryIter c q with
+   | some r => some r
+   | none => match queryWlo c.t c.fuel q with
     | some r => some r
     | none => query c.t c.fuel q
 
